@@ -48,8 +48,28 @@ def call_args_of(F, fname):
     return sorted(out)
 
 
+def _closure_bodies(fn, expr, depth=2):
+    """values computed by the closures mentioned in `expr` (e.g. the `|i| i + 1` of `i.map(..)` in a slice
+    bound): they are part of how the operand is computed, so they are part of the site's identity"""
+    out = []
+    for name in re.findall(r"closure\[([^\]]+)\]", expr):
+        c = fn.facts.fns.get(name)
+        if c is None:
+            continue
+        body = norm(c, c.expr_local(0))
+        out.append(body)
+        if depth > 0:
+            out += _closure_bodies(c, body, depth - 1)
+    return out
+
+
 def site_key(s):
-    e, h = panics._short(norm(s.fn, s.expr), 100)
+    full = norm(s.fn, s.expr)
+    bodies = _closure_bodies(s.fn, s.expr)
+    e, h = panics._short(full, 100)
+    if bodies:
+        e, h = panics._short(full + " ⟦" + " ; ".join(bodies) + "⟧", 100)
+        e = panics._short(full, 100)[0]
     what = s.what
     if s.kind == "index":
         what = "index"
